@@ -287,7 +287,7 @@ def lazy(parent, f, desc):
        "std::boxed::Box::<T>::new", "std::option::Option::<T>::as_ref", "std::option::Option::<T>::as_mut",
        "std::option::Option::<&T>::copied", "std::option::Option::<&T>::cloned",
        "std::option::Option::<T>::as_deref", "std::result::Result::<T, E>::as_ref",
-       "std::path::PathBuf::as_path", "std::string::String::as_str", "core::str::<impl str>::as_bytes",
+       "std::path::PathBuf::as_path", "std::string::String::as_str",
        "std::vec::Vec::<T, A>::as_slice", "std::iter::Iterator::fuse", "std::iter::Iterator::by_ref",
        "std::iter::Iterator::copied", "std::iter::Iterator::cloned", "std::string::String::into_boxed_str",
        "std::iter::Iterator::peekable")
@@ -330,6 +330,18 @@ def deep_copy(v, memo=None):
 def m_default(I, args, fn, expr):
     t = I.F.types[expr["ty"]] if expr else {}
     k = t.get("k")
+    mp = (fn or {}).get("mono_path") or ""
+    if mp:
+        import re as _re
+        m = _re.search(r"for ([A-Za-z0-9_:]+)>::default$", mp) or _re.search(r"^<([A-Za-z0-9_:]+) as std::default::Default>::default$", mp)
+        if m:
+            name = m.group(1)
+            if name in ("usize", "u8", "u16", "u32", "u64", "u128", "isize", "i8", "i16", "i32", "i64", "i128"):
+                return 0
+            if name == "bool":
+                return False
+            if name in ("std::string::String", "alloc::string::String"):
+                return ""
     if k == "bool":
         return False
     if k in ("int", "uint"):
@@ -1720,3 +1732,111 @@ def m_write_str(I, args, fn, expr):
     t = strip(args[1])
     I.emit("write", t.text() if isinstance(t, StrB) else str(t))
     return ok(UNIT)
+
+
+@model("itertools::Itertools::group_by", "itertools::Itertools::chunk_by")
+def m_group_by(I, args, fn, expr):
+    # consecutive elements with equal keys form one group; yields (key, group iterator)
+    items = drain(I, _as_iter(I, args[0]))
+    groups = []
+    for x in items:
+        k = I.call_value(args[1], [Ref(Place(Cell(x)))])
+        if groups and values_equal(I, groups[-1][0], k):
+            groups[-1][1].append(x)
+        else:
+            groups.append((k, [x]))
+    return RList([Tup([k, iter_of(I, RList(g), by_ref=False)]) for k, g in groups])
+
+
+@model("core::str::<impl str>::as_bytes", "std::string::String::as_bytes")
+def m_as_bytes(I, args, fn, expr):
+    s0 = strip(args[0])
+    if isinstance(s0, StrB) and s0.is_concrete():
+        s0 = s0.text()
+    if isinstance(s0, str):
+        return s0.encode()
+    return Sym("as_bytes(%s)" % _nm(s0), expr["ty"] if expr else None)
+
+
+@model("std::str::from_utf8", "core::str::from_utf8")
+def m_from_utf8(I, args, fn, expr):
+    b = strip(args[0])
+    if isinstance(b, RList) and all(isinstance(strip(x), int) for x in b.items):
+        b = bytes(strip(x) for x in b.items)
+    if isinstance(b, (bytes, bytearray)):
+        try:
+            return ok(bytes(b).decode("utf-8"))
+        except UnicodeDecodeError:
+            return err(Sym("Utf8Error"))
+    return Sym("from_utf8(%s)" % _nm(b), expr["ty"] if expr else None)
+
+
+def _range_bounds(rng, n):
+    rng = strip(rng)
+    if not isinstance(rng, Adt):
+        return None
+    f = {k: strip(v) for k, v in rng.fields.items()}
+    name = rng.path.rsplit("::", 1)[-1]
+    lo, hi = 0, n
+    if name in ("Range", "RangeFrom", "RangeInclusive"):
+        lo = f.get("start")
+    if name in ("Range", "RangeTo"):
+        hi = f.get("end")
+    if name == "RangeInclusive":
+        hi = f.get("end")
+        hi = hi + 1 if isinstance(hi, int) else hi
+    if name == "RangeToInclusive":
+        hi = f.get("end")
+        hi = hi + 1 if isinstance(hi, int) else hi
+    if name not in ("Range", "RangeFrom", "RangeTo", "RangeInclusive", "RangeToInclusive", "RangeFull"):
+        return None
+    if not (isinstance(lo, int) and isinstance(hi, int)):
+        return None
+    return lo, hi
+
+
+@model("std::ops::Index::index")
+def m_index(I, args, fn, expr):
+    base = strip(args[0])
+    ix = strip(args[1])
+    if isinstance(base, StrB) and base.is_concrete():
+        base = base.text()
+    if isinstance(base, str):
+        raw = base.encode()
+        r = _range_bounds(ix, len(raw))
+        if r is None:
+            raise Abort("index of a string with %r" % (ix,))
+        lo, hi = r
+        if lo > hi or hi > len(raw):
+            raise PanicEx("byte index out of range of the string")
+        try:
+            raw[:lo].decode("utf-8")
+            return raw[lo:hi].decode("utf-8")
+        except UnicodeDecodeError:
+            raise PanicEx("byte index is not a char boundary")
+    if isinstance(base, (bytes, bytearray)):
+        if isinstance(ix, int):
+            if 0 <= ix < len(base):
+                return base[ix]
+            raise PanicEx("index out of bounds")
+        r = _range_bounds(ix, len(base))
+        if r is None:
+            raise Abort("index of bytes with %r" % (ix,))
+        lo, hi = r
+        if lo > hi or hi > len(base):
+            raise PanicEx("range out of bounds")
+        return bytes(base[lo:hi])
+    if isinstance(base, RList):
+        if isinstance(ix, int) and not isinstance(ix, bool):
+            if 0 <= ix < len(base.items):
+                return Ref(Place(base, ix))
+            raise PanicEx("index out of bounds")
+        r = _range_bounds(ix, len(base.items))
+        if r is not None:
+            lo, hi = r
+            if lo > hi or hi > len(base.items):
+                raise PanicEx("range out of bounds")
+            return RList(base.items[lo:hi])
+    if isinstance(base, Top):
+        raise Abort("index of unanalysable value: %s" % base.reason)
+    return Sym("index(%s,%s)" % (_nm(base), _nm(ix)), expr["ty"] if expr else None)
